@@ -161,6 +161,10 @@ func (s *State) apply(args []string, pc matcher.ParseContext) bool {
 		if !pc.RejectOptions && arg == "--" {
 			pc.RejectOptions = true
 			args = args[1:]
+
+			if s.Terminal && len(args) == 0 {
+				return true
+			}
 		}
 	}
 
